@@ -30,6 +30,9 @@ def is_known(v):
     return v is not UNKNOWN
 
 
+_EQUIV_MEMO = {}
+
+
 class Unit:
     def __init__(self, name, path, rel, src):
         self.name, self.path, self.rel, self.src = name, path, rel, src
@@ -40,12 +43,20 @@ class Unit:
         self.equiv = (0, 0, [])
         if not os.environ.get("PV_NO_EQUIV"):
             from . import equiv
-            ref = equiv.anchor_tree(rel)
-            if ref is not None:
-                try:
-                    self.equiv = equiv.substitute(self.tree, ref)
-                except RecursionError:
-                    self.equiv = (0, 0, ["<recursion>"])
+            import pickle
+            key = (rel, hashlib.sha256(src.encode("utf-8", "surrogatepass")).hexdigest())
+            hit = _EQUIV_MEMO.get(key)
+            if hit is not None:
+                # `check all` builds one model per property in one process: the substitution is a function of the two sources only
+                self.tree, self.equiv = pickle.loads(hit[0]), hit[1]
+            else:
+                ref = equiv.anchor_tree(rel)
+                if ref is not None:
+                    try:
+                        self.equiv = equiv.substitute(self.tree, ref)
+                    except RecursionError:
+                        self.equiv = (0, 0, ["<recursion>"])
+                    _EQUIV_MEMO[key] = (pickle.dumps(self.tree), self.equiv)
         self.logging_stripped = alpha.strip_logging(self.tree)
         self.docstrings_stripped = alpha.strip_docstrings(self.tree)
         self.alpha_renamed = alpha.apply(self.tree, alpha.load().get(name)) if not os.environ.get("PV_NO_ALPHA") else 0
